@@ -1,6 +1,6 @@
 /-
 B-model (critical-section granularity, all interleavings) of the bounded MPMC channel v2:
-  /repo/channels/src/mpmc_v2/core.rs      try_send_core / try_recv_core / poll_recv_internal
+  /repo/channels/src/mpmc_v2/core.rs      try_send_core / try_recv_core(_for) / poll_recv_internal
   /repo/channels/src/mpmc_v2/sync_impl.rs send_sync / recv_sync / recv_timeout_sync, backoff.rs adaptive_wait
   /repo/channels/src/mpmc_v2/async_impl.rs SendFuture / RecvFuture (poll, Drop = cancellation)
   /repo/channels/src/mpmc_v2/mod.rs       clone / close / drop of the four handle types
@@ -330,18 +330,26 @@ def stepFdUnlS (s : State) (t v r : Nat) : State :=
 
 /-! ### `RecvFuture` (`poll_recv_internal`) -/
 
+/-- `try_recv_core_for(state_ptr)`: whenever the locked section resolves the future (an item, or Disconnected)
+the future's own record is unlinked in the same section (`unlink_async_receiver`, fix cd494c8 of finding F17:
+a still-registered future that was polled again used to return Ready leaving its WAITING record queued). -/
 def stepArTry (s : State) (t r : Nat) : State :=
   match recvCore { s with ar := s.ar.erase r } with
-  | some (v, s1) => { s1 with pc := upd s1.pc t (.done (.recvOk v)) }
+  | some (v, s1) => { s1 with war := s1.war.filter (· ≠ r), pc := upd s1.pc t (.done (.recvOk v)) }
   | none =>
-    if s.senders = 0 then { s with ar := s.ar.erase r, pc := upd s.pc t (.done .recvDisc) }
+    if s.senders = 0 then
+      { s with ar := s.ar.erase r, war := s.war.filter (· ≠ r), pc := upd s.pc t (.done .recvDisc) }
     else { s with ar := s.ar.erase r, pc := upd s.pc t (.arReg r) }
 
+/-- second locked section of `poll_recv_internal`. The future may still be registered here (it was polled again
+while WAITING): a sender can then CAS its record in between, so `ar` (ghost) is cleared of `r` when the record is
+re-armed or the future resolves. -/
 def stepArReg (s : State) (t r : Nat) : State :=
   if s.queue ≠ [] then { s with pc := upd s.pc t (.arTry r) }
-  else if s.senders = 0 then { s with pc := upd s.pc t (.done .recvDisc) }
+  else if s.senders = 0 then
+    { s with ar := s.ar.erase r, war := s.war.filter (· ≠ r), pc := upd s.pc t (.done .recvDisc) }
   else if r ∈ s.war then { s with pc := upd s.pc t (.arPend r) }
-  else { s with st := upd s.st r .waiting, war := s.war ++ [r], pc := upd s.pc t (.arPend r) }
+  else { s with ar := s.ar.erase r, st := upd s.st r .waiting, war := s.war ++ [r], pc := upd s.pc t (.arPend r) }
 
 def stepArUnl (s : State) (t r : Nat) : State :=
   { s with war := s.war.filter (· ≠ r), pc := upd s.pc t (.done .recvDisc) }
@@ -540,15 +548,13 @@ inductive Reach (cap : Nat) : State → Prop where
   | step {s s' t l} : Reach cap s → step s t l = some s' → Reach cap s'
 
 /-- The hypothesis of the C06 partial theorems, per step:
-* no future is dropped between being woken (state byte SUCCESS) and its next poll  (F2);
-* a `RecvFuture` is not re-polled while its state byte is still WAITING               (F17:
-  `poll_recv_internal` retries `try_recv_core` first and, if it steals an item, returns Ready
-  leaving its WAITING record in the queue). -/
+* no future is dropped between being woken (state byte SUCCESS) and its next poll  (F2).
+(Until fix cd494c8 a second clause excluded re-polling a `RecvFuture` whose state byte was still WAITING —
+finding F17: the stolen item left a dangling WAITING record. Spurious polls are unrestricted now.) -/
 def Benign (s : State) (t : Nat) (l : Label) : Prop :=
   match l, s.pc t with
   | .dropFut, .asPend _ r => s.st r ≠ .success
   | .dropFut, .arPend r => s.st r ≠ .success
-  | .poll, .arPend r => s.st r ≠ .waiting
   | _, _ => True
 
 inductive ReachB (cap : Nat) : State → Prop where
